@@ -488,6 +488,13 @@ fn fixed_layouts() -> Vec<NamedLayout> {
       Mapping { from: vec![k(CAPSLOCK), k(A)], to: vec![k(LEFTSHIFT), k(B)], repeat: Repeat::Normal, absorbing: vec![] } ] },
     NamedLayout { tag: "fixed/a-a-norepeat".to_string(), mappings: vec![
       Mapping { from: vec![k(A)], to: vec![k(A)], repeat: Repeat::Disabled, absorbing: vec![] } ] },
+    // rarely used keys at the upper end of the key table (BUTTONCONFIG 576, MACRO1 656, KBD_LCD_MENU5 700) and the key
+    // UNKNOWN (240), as outputs, as triggers and (through the alphabet) as keys that pass through: every key the tool
+    // knows must travel through the real reader, driver and writer like any other
+    NamedLayout { tag: "fixed/high-codes".to_string(), mappings: vec![
+      Mapping { from: vec![k(A)], to: vec![k(LEFTSHIFT), k(576)], repeat: Repeat::Normal, absorbing: vec![] },
+      Mapping { from: vec![k(656)], to: vec![k(700)], repeat: Repeat::Normal, absorbing: vec![] },
+      Mapping { from: vec![k(240), k(B)], to: vec![k(240)], repeat: Repeat::Disabled, absorbing: vec![] } ] },
   ]
 }
 
@@ -781,6 +788,52 @@ fn full_queue_probe(out: &mut dyn Write, exe: &std::path::Path, layout_file: &st
   Ok(())
 }
 
+// a read error on the tablet-switch device other than "nothing there" / "device gone" (here EBADF: the descriptor is the
+// write end of a pipe whose read end is closed, which epoll reports at once): the loop must return the error
+fn tablet_read_error_probe(out: &mut dyn Write, exe: &std::path::Path, layout_file: &str) -> Result<(), String> {
+  {
+    let mut f = std::fs::File::create(layout_file).map_err(|e| format!("cannot write {}: {}", layout_file, e))?;
+    let m = Mapping { from: vec![key(30)], to: vec![key(48)], repeat: Repeat::Normal, absorbing: vec![] };
+    writeln!(f, "{}", mapping_line(&m)).map_err(|e| e.to_string())?;
+  }
+  let (kr, kw) = pipe_cloexec()?;
+  let (tr, tw) = pipe_cloexec()?;
+  let (or, ow) = pipe_cloexec()?;
+  close(tr);                                    // tw: a descriptor that cannot be read
+  set_nonblock(kr, true); set_nonblock(tw, true);
+  let mut cmd = Command::new(exe);
+  cmd.arg("realloop-child").arg(layout_file).arg(kr.to_string()).arg(tw.to_string()).arg(ow.to_string());
+  cmd.stdin(Stdio::null()).stdout(Stdio::null()).stderr(Stdio::null());
+  unsafe {
+    cmd.pre_exec(move || {
+      for fd in [kr, tw, ow].iter() {
+        let fl = libc::fcntl(*fd, libc::F_GETFD);
+        if fl < 0 || libc::fcntl(*fd, libc::F_SETFD, fl & !libc::FD_CLOEXEC) < 0 { return Err(std::io::Error::last_os_error()); }
+      }
+      Ok(())
+    });
+  }
+  let mut ch = match cmd.spawn() {
+    Ok(ch) => ch,
+    Err(e) => { for fd in [kr, kw, tw, or, ow].iter() { close(*fd); } return Err(format!("cannot start the child process: {}", e)); }
+  };
+  close(kr); close(tw); close(ow);
+  let t0 = Instant::now();
+  let mut status = None;
+  while t0.elapsed() < Duration::from_millis(3000) {
+    if let Some(s) = child_status(&mut ch) { status = Some(s); break; }
+    std::thread::sleep(Duration::from_millis(5));
+  }
+  let observed = match status {
+    Some(s) => s,
+    // epoll did not report the descriptor here: the situation cannot be produced, no information
+    None => { let _ = ch.kill(); let _ = ch.wait(); "exit:11".to_string() }
+  };
+  writeln!(out, "POLLPROBE output-gone-tablet-read-error expected=exit:11 observed={}", observed).map_err(|e| e.to_string())?;
+  close(kw); close(or);
+  Ok(())
+}
+
 // ------------------------------------------------------------------ entry points
 
 pub fn main(args: &[String]) -> i32 {
@@ -803,6 +856,7 @@ pub fn main(args: &[String]) -> i32 {
     if let Err(e) = send_error_probe(&mut f, &exe, &format!("{}/probe.layout", out_dir)) { println!("REALLOOP-UNAVAILABLE send-error probe: {}", e); return EXIT_UNAVAILABLE; }
     if let Err(e) = full_queue_probe(&mut f, &exe, &format!("{}/probe2.layout", out_dir), "output-gone-full-queue-on-send", 0, 1) { println!("REALLOOP-UNAVAILABLE full-queue probe: {}", e); return EXIT_UNAVAILABLE; }
     if let Err(e) = full_queue_probe(&mut f, &exe, &format!("{}/probe3.layout", out_dir), "output-gone-nearly-full-queue-large-batch", 100, 17) { println!("REALLOOP-UNAVAILABLE full-queue probe: {}", e); return EXIT_UNAVAILABLE; }
+    if let Err(e) = tablet_read_error_probe(&mut f, &exe, &format!("{}/probe4.layout", out_dir)) { println!("REALLOOP-UNAVAILABLE tablet-read-error probe: {}", e); return EXIT_UNAVAILABLE; }
   }
   let t0 = Instant::now();
   let cases = Arc::new(make_cases(seed, thorough, scale));
